@@ -117,4 +117,21 @@ static int rp_match(const rp_pattern_t * p, const char * h, int hl, long * nums,
     }
     return rp_match_rec(p, 0, mn, mlen, 0, nm, nums, 0, def);
 }
+/* a header spelling derived from the pattern: kind 0 = every keyword in long form (numeric ones with suffix 12), kind 1 = mandatory
+ * keywords only, in short form, no suffix; returns its length */
+static int rp_probe(const rp_pattern_t * p, int kind, char * out) {
+    int k, o = 0, first = 1;
+    for (k = 0; k < p->nkw; k++) {
+        const rp_kw_t * kw = &p->kw[k];
+        int n = kind == 0 ? kw->llen : kw->slen;
+        if (kind == 1 && kw->optional) continue;
+        if (!first) out[o++] = ':';
+        memcpy(out + o, kw->name, (size_t) n); o += n;
+        if (kind == 0 && kw->numeric) { out[o++] = '1'; out[o++] = '2'; }
+        first = 0;
+    }
+    if (p->query) out[o++] = '?';
+    out[o] = 0;
+    return o;
+}
 #endif
